@@ -19,7 +19,9 @@ PARTIAL BY NATURE.  Kernel signal delivery, `signal.Notify`, SIGWINCH and the pt
 * signals: in the Lifecycle LTS (`Tea/Runtime/Lifecycle.lean`) the label `.signal int` is "the
   handler goroutine took SIGINT (`int = true`) or SIGTERM (`false`) from its channel and is
   about to forward it to the event loop".  The theorems hold for every configuration and
-  every schedule (`Reachable c s`).  `ignoreSignals` is a field of the configuration in the
+  every schedule (`Reachable c s`: every label sequence from the moment Run is entered, `init0 c` -
+  the handler goroutine is spawned by the first step of the start-up, a signal taken during the
+  start-up is held by it until the loop begins).  `ignoreSignals` is a field of the configuration in the
   model (WithoutSignals); its toggling by ReleaseTerminal / RestoreTerminal is NOT modelled (the
   order of those calls is pinned by the bridge facts of `Tea/Props/Bridge/C18.lean`): the theorems
   about ignored signals are statements about any state whose flag is set (`C18_ignored`, part 1)
@@ -56,7 +58,8 @@ theorem C18_sigint (c : Config) (s : St) (hr : Reachable c s) (hsig : s.sig = .w
   intro ls s'' h2
   have hr'' := reachable_runLabels ls (reachable_runLabels _ hr h1) h2
   have hel'' := el_exited_runLabels ls h2 (c := .interrupt) rfl
-  exact ⟨hel'', fun hp => C04.C04_error_interrupt c s'' hr'' hp hel'', (inv_restored hr'').2⟩
+  exact ⟨hel'', fun hp => C04.C04_error_interrupt c s'' hr'' hp hel'',
+    fun h => (inv_restored hr'').2 h (by rw [hel'']; simp)⟩
 
 /-- **SIGTERM.**  The same for SIGTERM: the loop ends with cause `quit` - exactly the cause of a
 quit message, so everything that follows is what follows a quit.  On every later schedule the
@@ -79,7 +82,8 @@ theorem C18_sigterm (c : Config) (s : St) (hr : Reachable c s) (hsig : s.sig = .
   intro ls s'' h2
   have hr'' := reachable_runLabels ls (reachable_runLabels _ hr h1) h2
   have hel'' := el_exited_runLabels ls h2 (c := .quit) rfl
-  refine ⟨hel'', fun hp => C04.C04_error_quit c s'' hr'' hp hel'', ?_, (inv_restored hr'').2⟩
+  refine ⟨hel'', fun hp => C04.C04_error_quit c s'' hr'' hp hel'', ?_,
+    fun h => (inv_restored hr'').2 h (by rw [hel'']; simp)⟩
   intro s3 h3
   rw [(runTail_err h3 hel'').1]
   cases s''.ctxDone <;> rfl
@@ -107,11 +111,12 @@ theorem C18_signal_run_returns (c : Config) (s : St) (hr : Reachable c s) (hsig 
   have hr'' := reachable_runLabels ls (reachable_runLabels _ hr h1) h2
   have hel'' := el_exited_runLabels ls h2 (c := if int then .interrupt else .quit) rfl
   obtain ⟨ps, s3, p1, p2, p3, p4⟩ :=
-    C04.C04_run_returns c s'' hr'' (Or.inr (Or.inl ⟨_, hel''⟩)) hnc
+    C04.C04_run_returns_after_startup c s'' hr'' (Or.inr (Or.inl ⟨_, hel''⟩)) hnc
+      (not_starting_of_exited hr'' hel'')
   have hr3 := reachable_runLabels ps hr'' p3
   have hel3 := el_exited_runLabels ps p3 hel''
   have hnl : s3.runPc ≠ .loop := by rw [p4]; decide
-  refine ⟨ps, s3, p1, p2, p3, p4, (inv_restored hr3).2 p4, ?_, ?_⟩
+  refine ⟨ps, s3, p1, p2, p3, p4, (inv_restored hr3).2 p4 (by rw [hel3]; simp), ?_, ?_⟩
   · intro hi
     rw [hi] at hel3
     exact C04.C04_error_interrupt c s3 hr3 hnl hel3
@@ -167,10 +172,13 @@ theorem C18_no_handler (c : Config) (s : St) (hc : c.withSignalHandler = false)
   · simp [step, h]
   · rw [h]; rfl
 
-/-- with a handler (the default) the goroutine exists at start-up and waits -/
+/-- with a handler (the default) the goroutine is spawned by the FIRST step of Run's start-up
+(`suSigHandler`, before the renderer exists) and waits; it is waiting when the loop begins -/
 theorem C18_handler_installed (c : Config) (hc : c.withSignalHandler = true) :
-    (init c).sig = .waiting := by
-  simp [init, hc]
+    (init c).sig = .waiting ∧
+    ∃ s, step (init0 c) .suSigHandler = some s ∧ s.sig = .waiting ∧ s.runPc = .starting .newRenderer := by
+  refine ⟨by simp [init, hc], _, rfl, ?_, rfl⟩
+  simp [init0, hc]
 
 /-! ### 4. a signal that loses the race does not hang the shutdown -/
 
@@ -289,6 +297,18 @@ example : (runLabels (init cfg)
     [.signal true, .elRecvSig, .runTail, .shCancel none, .dispExit, .resizeExit, .shHandlers none,
      .shReader none, .shRenderer none, .shRestore none, .runReturn]).map obs
     = some (.returned, .interrupted, 1, true) := by decide
+
+/-- SIGINT while Run is still starting up (inside Init): the handler goroutine takes it and waits,
+holding it, until the loop begins; then Run returns ErrInterrupted, terminal restored once -/
+example : (runLabels (init0 cfg)
+    ([.suSigHandler, .suNewRenderer, .startWriterReturns, .suStartRenderer, .signal true, .initReturns,
+      .suSpawnInit, .firstViewReturns, .suOpenReader, .suSpawnHandlers] ++
+     [.elRecvSig, .runTail, .shCancel none, .dispExit, .resizeExit, .shHandlers none,
+      .shReader none, .shRenderer none, .shRestore none, .runReturn])).map obs
+    = some (.returned, .interrupted, 1, true) ∧
+    (runLabels (init0 cfg) [.suSigHandler, .suNewRenderer, .startWriterReturns, .suStartRenderer,
+      .signal true]).map (fun s => (s.sig, (step s .elRecvSig).isSome)) = some (.sending true, false) := by
+  decide
 
 /-- SIGTERM: Run returns nil, terminal restored once; like a quit it waits for the read loop -/
 example : (runLabels (init cfg)
